@@ -101,34 +101,27 @@ end
 
 /-- Post-condition of the traversal functions relative to their entry state `(st, cd)`;
 `noErr` = "no error was reported". -/
-structure FillPost (S : SchemaView) (re : Bool) (st : St) (cd : CD) (st' : St) (cd' : CD)
+structure FillPost (S : SchemaView) (st : St) (cd : CD) (st' : St) (cd' : CD)
     (noErr : Prop) : Prop where
   step : St.Step st st' noErr
   cdInv : CD.Inv S st' cd'
   verts : ∀ v ∈ cd.vertices, v ∈ cd'.vertices
   vids : ∀ x ∈ cdVids cd, x ∈ cdVids cd'
   outs : noErr → OutNew st st' (fun f => f.vid ∈ cdVids cd')
-  /-- every newly recorded edge with an enum literal among its arguments is accounted for by `re` -/
-  flag : ∀ e ∈ cd'.edges, e ∈ cd.edges ∨ (argsHaveEnum e.conn.arguments = true → re = true)
   /-- without errors only the current component's output map changed, by entries that refer to
   vertices of the component or of its folds -/
   tops : noErr → TopNew st st' (fun f => f.vid ∈ cdVids cd')
 
-/-- The sites inputs can reach during the traversal: F-12, N-6, N-3; F-7 when (`r`) the part of the
-query being traversed contains a `@fold @transform … @transform`; N-2 when (`re`) it contains an
-enum literal among the arguments of a field. -/
-def FillSite (r re : Bool) (s : Site) : Prop := PostSite re s ∨ (s = .retransform ∧ r = true)
+/-- The sites inputs can reach during the traversal: N-6 (filters); F-7 when (`r`) the part of the
+query being traversed contains a `@fold @transform … @transform`.  (Until the repair of N-2 /
+F-C10-2 there was a second flag `re`, "it contains an enum literal among the arguments of a field",
+for the site `.enumArgument`, with a bookkeeping field `FillPost.flag`.) -/
+def FillSite (r : Bool) (s : Site) : Prop := PostSite s ∨ (s = .retransform ∧ r = true)
 
-theorem PostSite.mono {re re' : Bool} {s : Site} (h : PostSite re s) (he : re = true → re' = true) :
-    PostSite re' s := by
+theorem FillSite.mono {r r' : Bool} {s : Site} (h : FillSite r s)
+    (hr : r = true → r' = true) : FillSite r' s := by
   rcases h with h | ⟨h1, h2⟩
   · exact Or.inl h
-  · exact Or.inr ⟨h1, he h2⟩
-
-theorem FillSite.mono {r r' re re' : Bool} {s : Site} (h : FillSite r re s)
-    (hr : r = true → r' = true) (he : re = true → re' = true) : FillSite r' re' s := by
-  rcases h with h | ⟨h1, h2⟩
-  · exact Or.inl (h.mono he)
   · exact Or.inr ⟨h1, hr h2⟩
 
 theorem collectVidsFolds_append (a b : List FoldIR) :
@@ -148,12 +141,12 @@ theorem foldAfterFill_sat {S : SchemaView} (hS : ValidSchemaView S) {st1 : St} {
     (hinv1 : st1.Inv) (hout1' : 0 < st1.outStack.length) (hcd : CD.Inv S st1 cd) (startVid : Vid)
     (fg : FoldGroup) (foldEid : Eid)
     (subName : String) (subAlias : Option String) (subHasOutput : Bool) (e1 : List FrontErr)
-    (r : St × CD × List FrontErr) {re : Bool}
-    (hr : FillPost S re (foldEnter st1 startVid) CD.empty r.1 r.2.1 (r.2.2 = []))
+    (r : St × CD × List FrontErr)
+    (hr : FillPost S (foldEnter st1 startVid) CD.empty r.1 r.2.1 (r.2.2 = []))
     (hroot : startVid ∈ r.2.1.vertices.map (·.vid)) :
-    Sat (FillSite fg.hasRetr re)
+    Sat (FillSite fg.hasRetr)
       (foldAfterFill S fg foldEid startVid subName subAlias subHasOutput cd e1 r)
-      (fun r' => FillPost S re st1 cd r'.1 r'.2.1 (r'.2.2 = [])) := by
+      (fun r' => FillPost S st1 cd r'.1 r'.2.1 (r'.2.2 = [])) := by
   obtain ⟨hfe_inv, hfe_path, hfe_out, hfe_vs, hfe_nv, hfe_ne, hfe_pf, hfe_go⟩ :=
     foldEnter_inv hinv1 startVid
   have hstep := hr.step
@@ -164,17 +157,12 @@ theorem foldAfterFill_sat {S : SchemaView} (hS : ValidSchemaView S) {st1 : St} {
     rw [← hlen_fe]; exact hstep.outLen
   have hout_r : 0 < r.1.outStack.length := by omega
   unfold foldAfterFill
-  have hflag : EdgesFlag re r.2.1 := by
-    intro e he
-    rcases hr.flag e he with h | h
-    · simp [CD.empty] at h
-    · exact h
   have htopc : r.2.2 = [] → ∀ o ∈ r.1.topMap, o.2.vid ∈ cdVids r.2.1 := by
     intro h0 o ho
     rcases (hr.tops h0).2 o ho with h | h
     · simp [St.topMap, hfe_out] at h
     · exact h
-  refine Sat.bind ((componentPost_sat hS hstep.inv hout_r hr.cdInv r.2.2 hflag htopc).monoK
+  refine Sat.bind ((componentPost_sat hS hstep.inv hout_r hr.cdInv r.2.2 htopc).monoK
     (fun _ h => Or.inl h)) fun c hc => ?_
   obtain ⟨hc_inv, hc_path, hc_vs, hc_nv, hc_ne, hc_pf, hc_go, hc_len, hc_err, hc_ok⟩ := hc
   have hnv : st1.nextVid ≤ c.1.nextVid := by rw [hc_nv, ← hfe_nv]; exact hstep.nextVid
@@ -188,7 +176,7 @@ theorem foldAfterFill_sat {S : SchemaView} (hS : ValidSchemaView S) {st1 : St} {
     have hne_errs : ¬ (e1 ++ es = []) := fun h => hes (List.append_eq_nil_iff.mp h).2
     refine ⟨⟨hc_inv, hvs, hnv, hne, ⟨[startVid] ++ ext, ?_, fun h => absurd h hne_errs⟩, ?_,
       fun h => absurd h hne_errs, hpf⟩, hcd.mono hnv hne, fun _ h => h, fun _ h => h,
-      fun h => absurd h hne_errs, fun _ h => Or.inl h, fun h => absurd h hne_errs⟩
+      fun h => absurd h hne_errs, fun h => absurd h hne_errs⟩
     · rw [hc_path, hext, hfe_path, List.append_assoc]
     · show st1.outStack.length ≤ c.1.outStack.length
       omega
@@ -207,7 +195,7 @@ theorem foldAfterFill_sat {S : SchemaView} (hS : ValidSchemaView S) {st1 : St} {
     refine Sat.bind ((foldPost_sat hc_inv hout_c hpath_c hinv1.path_ne fg foldEid subName subAlias
       subHasOutput comp).monoK (fun s h => ?_)) fun f hf => ?_
     · rcases h with h | h
-      · exact Or.inl (Or.inl h)
+      · exact Or.inl h
       · exact Or.inr h
     obtain ⟨hf_inv, hf_path, hf_vs, hf_len, hf_nv, hf_ne, hf_pf, hf_new, hf_top, hf_err, hf_ok⟩ := hf
     have hstepf : ∀ p : Prop, St.Step st1 f.1 p := fun p =>
@@ -219,7 +207,7 @@ theorem foldAfterFill_sat {S : SchemaView} (hS : ValidSchemaView S) {st1 : St} {
       have hes := hf_err es herr
       have hne_errs : ¬ (e1 ++ es = []) := fun h => hes (List.append_eq_nil_iff.mp h).2
       exact ⟨hstepf _, hcd.mono (Nat.le_trans hnv hf_nv) (Nat.le_trans hne hf_ne), fun _ h => h,
-        fun _ h => h, fun h => absurd h hne_errs, fun _ h => Or.inl h, fun h => absurd h hne_errs⟩
+        fun _ h => h, fun h => absurd h hne_errs, fun h => absurd h hne_errs⟩
     · rename_i fold hfold
       have hcomp := hf_ok fold hfold
       have hsub : ∀ x ∈ cdVids r.2.1, x ∈ cdVids { cd with folds := cd.folds ++ [fold] } := by
@@ -231,7 +219,7 @@ theorem foldAfterFill_sat {S : SchemaView} (hS : ValidSchemaView S) {st1 : St} {
         simp only [cdVids, collectVidsFolds_append, collectVidsFolds, List.append_nil,
           List.mem_append]
         right; right; exact hx
-      refine ⟨hstepf _, ?_, fun _ h => h, ?_, ?_, fun _ h => Or.inl h, ?_⟩
+      refine ⟨hstepf _, ?_, fun _ h => h, ?_, ?_, ?_⟩
       · exact ⟨hcd.nodup, fun v hv => Nat.lt_of_lt_of_le (hcd.vidsLt v hv)
           (Nat.le_trans hnv hf_nv), fun e he => Nat.lt_of_lt_of_le (hcd.eidsLt e he)
           (Nat.le_trans hne hf_ne), hcd.edgesOk, hcd.propsOk⟩
@@ -265,57 +253,44 @@ theorem foldAfterFill_sat {S : SchemaView} (hS : ValidSchemaView S) {st1 : St} {
         exact Or.inl hroot
 
 
-theorem FillPost.weaken {S : SchemaView} {re : Bool} {st st' : St} {cd cd' : CD} {p q : Prop}
-    (h : FillPost S re st cd st' cd' p) (hq : q → p) : FillPost S re st cd st' cd' q :=
-  ⟨h.step.weaken hq, h.cdInv, h.verts, h.vids, fun x => h.outs (hq x), h.flag,
+theorem FillPost.weaken {S : SchemaView} {st st' : St} {cd cd' : CD} {p q : Prop}
+    (h : FillPost S st cd st' cd' p) (hq : q → p) : FillPost S st cd st' cd' q :=
+  ⟨h.step.weaken hq, h.cdInv, h.verts, h.vids, fun x => h.outs (hq x),
    fun x => h.tops (hq x)⟩
 
-theorem FillPost.monoFlag {S : SchemaView} {re re' : Bool} {st st' : St} {cd cd' : CD} {p : Prop}
-    (h : FillPost S re st cd st' cd' p) (he : re = true → re' = true) :
-    FillPost S re' st cd st' cd' p :=
-  ⟨h.step, h.cdInv, h.verts, h.vids, h.outs, fun e he' => by
-    rcases h.flag e he' with h' | h'
-    · exact Or.inl h'
-    · exact Or.inr fun x => he (h' x), h.tops⟩
-
-theorem FillPost.trans {S : SchemaView} {re : Bool} {a b c : St} {cda cdb cdc : CD} {p q r : Prop}
-    (h1 : FillPost S re a cda b cdb p) (h2 : FillPost S re b cdb c cdc q) (hr : r → p ∧ q) :
-    FillPost S re a cda c cdc r :=
+theorem FillPost.trans {S : SchemaView} {a b c : St} {cda cdb cdc : CD} {p q r : Prop}
+    (h1 : FillPost S a cda b cdb p) (h2 : FillPost S b cdb c cdc q) (hr : r → p ∧ q) :
+    FillPost S a cda c cdc r :=
   ⟨h1.step.trans h2.step hr, h2.cdInv, fun v hv => h2.verts v (h1.verts v hv),
    fun x hx => h2.vids x (h1.vids x hx),
    fun x => (h1.outs (hr x).1).trans (h2.outs (hr x).2) (fun _ hf => h2.vids _ hf) (fun _ hf => hf),
-   fun e he => by
-    rcases h2.flag e he with h | h
-    · exact h1.flag e h
-    · exact Or.inr h,
    fun x => (h1.tops (hr x).1).trans (h2.tops (hr x).2) (fun _ hf => h2.vids _ hf) (fun _ hf => hf)⟩
 
-theorem FillPost.refl {S : SchemaView} {re : Bool} {st : St} {cd : CD} (hinv : st.Inv)
-    (hcd : CD.Inv S st cd) (p : Prop) : FillPost S re st cd st cd p :=
+theorem FillPost.refl {S : SchemaView} {st : St} {cd : CD} (hinv : st.Inv)
+    (hcd : CD.Inv S st cd) (p : Prop) : FillPost S st cd st cd p :=
   ⟨St.Step.refl hinv p, hcd, fun _ h => h, fun _ h => h, fun _ => OutNew.refl _ _,
-   fun _ h => Or.inl h, fun _ => TopNew.refl _ _⟩
+   fun _ => TopNew.refl _ _⟩
 
 /-- The tail of the edge branch of `fill_in_vertex_data`: `end_nested_scope`, then the remaining
 connections (`k`). `st1` is the state after `begin_nested_scope(v)`, `cdIn` the component data the
 edge's own processing (`inner`) started from. -/
-theorem edgeTail_sat {S : SchemaView} {re : Bool} {st st1 : St} {cd cdIn : CD} {v : Vid} {cur : Vid}
+theorem edgeTail_sat {S : SchemaView} {st st1 : St} {cd cdIn : CD} {v : Vid} {cur : Vid}
     {postType : String} (hinv : st.Inv) (hout : 0 < st.outStack.length)
     (h1inv : st1.Inv) (h1vs : st1.vidStack = st.vidStack ++ [v])
     (h1pf : ∀ p ∈ st.prefixes, p ∈ st1.prefixes) (h1path : st1.path = st.path)
     (h1out : st1.outStack = st.outStack) (h1nv : st.nextVid ≤ st1.nextVid)
     (h1ne : st.nextEid ≤ st1.nextEid) (h1go : st1.globalOutputs = st.globalOutputs)
     (hverts : ∀ x ∈ cd.vertices, x ∈ cdIn.vertices) (hvids : ∀ x ∈ cdVids cd, x ∈ cdVids cdIn)
-    (hflagIn : ∀ e ∈ cdIn.edges, e ∈ cd.edges ∨ (argsHaveEnum e.conn.arguments = true → re = true))
     (hcur : ∃ v0 ∈ cd.vertices, v0.vid = cur ∧ v0.postType = postType)
     {K : Site → Prop} (inner : FRes (St × CD × List FrontErr))
-    (hinner : Sat K inner (fun r => FillPost S re st1 cdIn r.1 r.2.1 (r.2.2 = [])))
+    (hinner : Sat K inner (fun r => FillPost S st1 cdIn r.1 r.2.1 (r.2.2 = [])))
     (k : St → CD → List FrontErr → FRes (St × CD × List FrontErr)) (errs : List FrontErr)
     (hk : ∀ (st3 : St) (cd3 : CD) (e : List FrontErr), st3.Inv → 0 < st3.outStack.length →
       CD.Inv S st3 cd3 → (∃ v0 ∈ cd3.vertices, v0.vid = cur ∧ v0.postType = postType) →
       Sat K (k st3 cd3 (errs ++ e))
-        (fun r => ∃ more, r.2.2 = (errs ++ e) ++ more ∧ FillPost S re st3 cd3 r.1 r.2.1 (more = []))) :
+        (fun r => ∃ more, r.2.2 = (errs ++ e) ++ more ∧ FillPost S st3 cd3 r.1 r.2.1 (more = []))) :
     Sat K (inner >>= fun r => r.1.endNestedScope v >>= fun st3 => k st3 r.2.1 (errs ++ r.2.2))
-      (fun r => ∃ more, r.2.2 = errs ++ more ∧ FillPost S re st cd r.1 r.2.1 (more = [])) := by
+      (fun r => ∃ more, r.2.2 = errs ++ more ∧ FillPost S st cd r.1 r.2.1 (more = [])) := by
   refine Sat.bind hinner fun r hr => ?_
   have hstep := hr.step
   have hvs' : r.1.vidStack = st.vidStack ++ [v] := by rw [hstep.vidStack, h1vs]
@@ -329,9 +304,9 @@ theorem edgeTail_sat {S : SchemaView} {re : Bool} {st st1 : St} {cd cdIn : CD} {
   simp only [bind_ok]
   obtain ⟨ext, hext, hexact⟩ := hstep.path
   -- the edge as a whole, seen from `st`
-  have hpost1 : FillPost S re st cd st3 r.2.1 (r.2.2 = []) := by
+  have hpost1 : FillPost S st cd st3 r.2.1 (r.2.2 = []) := by
     refine ⟨⟨h3inv, h3vs, ?_, ?_, ⟨ext, by rw [h3path, hext, h1path], hexact⟩, ?_, ?_, ?_⟩, ?_,
-      fun x hx => hr.verts x (hverts x hx), fun x hx => hr.vids x (hvids x hx), ?_, ?_, ?_⟩
+      fun x hx => hr.verts x (hverts x hx), fun x hx => hr.vids x (hvids x hx), ?_, ?_⟩
     · rw [h3nv]; exact Nat.le_trans h1nv hstep.nextVid
     · rw [h3ne]; exact Nat.le_trans h1ne hstep.nextEid
     · rw [h3out, ← h1out]; exact hstep.outLen
@@ -345,10 +320,6 @@ theorem edgeTail_sat {S : SchemaView} {re : Bool} {st st1 : St} {cd cdIn : CD} {
       rcases this o ho with h' | h'
       · left; rw [← h1go]; exact h'
       · right; exact h'
-    · intro e he
-      rcases hr.flag e he with h | h
-      · exact hflagIn e h
-      · exact Or.inr h
     · intro h
       have := hr.tops h
       refine ⟨by rw [h3out, this.1, h1out], fun o ho => ?_⟩
